@@ -566,6 +566,11 @@ func init() {
 							switch {
 							case shortName(u.Obj) == "encodeString":
 								obs = append(obs, mkOb(c, "JSON.raw-text-writes", u, construct, ce, Proved, "inside encodeString: the pieces written are the runs it has checked need no escape", false))
+							case func() bool {
+								_, ok := c.privateHelperOf(u.Obj, func(n string) bool { return strings.HasSuffix(n, ".encodeString") }, 0)
+								return ok
+							}():
+								obs = append(obs, mkOb(c, "JSON.raw-text-writes", u, construct, ce, Proved, "inside a helper that only encodeString calls: the pieces written are the runs it has checked need no escape", false))
 							default:
 								// allowed only under an edge entailing the text equals the true/false constants
 								cls := func(e ast.Expr) (string, bool) {
@@ -967,7 +972,7 @@ func init() {
 					if (f != lw && f != ld) || len(ce.Args) == 0 {
 						continue
 					}
-					construct := ord.next("document handed to " + f.Name())
+					construct := ord.next("document handed to " + shortName(f))
 					a := ast.Unparen(ce.Args[0])
 					ok := false
 					why := ""
